@@ -102,13 +102,17 @@ func runC03(p *Prog, r *Report, tier string) {
 			if i == nil {
 				continue
 			}
-			bo, ok := i.Cond.(*ssa.BinOp)
-			if !ok {
-				continue
+			// buffer.Len() > 0 (or != 0, >= 1), whichever way it is spelled; the body is the edge on which it holds
+			var buf ssa.Value
+			bodySucc := -1
+			for _, cf := range cmpForms(i.Cond) {
+				bv, isLen := isBufLen(cf.X)
+				z, isC := constInt(cf.Y)
+				if isLen && isC && ((z == 0 && (cf.Op == token.GTR || cf.Op == token.NEQ)) || (z == 1 && cf.Op == token.GEQ)) {
+					buf, bodySucc = bv, cf.Succ
+				}
 			}
-			buf, isLen := isBufLen(bo.X)
-			z, isZero := constInt(bo.Y)
-			if !isLen || !isZero || z != 0 || (bo.Op != token.GTR && bo.Op != token.NEQ) {
+			if bodySucc < 0 {
 				continue
 			}
 			// is hb a loop head? (has a predecessor it dominates)
@@ -122,7 +126,7 @@ func runC03(p *Prog, r *Report, tier string) {
 				continue
 			}
 			nLoop++
-			body := hb.Succs[0]
+			body := hb.Succs[bodySucc]
 			construct := fmt.Sprintf("%s: loop while buffer.Len() > 0", fnKey(f))
 			q := &pathQuery{loopHead: hb, noExit: true, discharge: func(x ssa.Instruction) bool {
 				ii, ok := x.(*ssa.If)
@@ -838,13 +842,15 @@ func checkRecordLoopExits(p *Prog, r *Report, rule string) {
 		if i == nil {
 			continue
 		}
-		bo, ok := i.Cond.(*ssa.BinOp)
-		if !ok {
-			continue
+		bodySucc := -1
+		for _, cf := range cmpForms(i.Cond) {
+			_, isLen := isBufLen(cf.X)
+			z, isC := constInt(cf.Y)
+			if isLen && isC && ((z == 0 && (cf.Op == token.GTR || cf.Op == token.NEQ)) || (z == 1 && cf.Op == token.GEQ)) {
+				bodySucc = cf.Succ
+			}
 		}
-		_, isLen := isBufLen(bo.X)
-		z, isZero := constInt(bo.Y)
-		if !isLen || !isZero || z != 0 || (bo.Op != token.GTR && bo.Op != token.NEQ) {
+		if bodySucc < 0 {
 			continue
 		}
 		isLoop := false
@@ -864,7 +870,7 @@ func checkRecordLoopExits(p *Prog, r *Report, rule string) {
 				continue
 			}
 			for si, s := range b.Succs {
-				if inLoopBlk(s) || (b == hb && si == 1) {
+				if inLoopBlk(s) || (b == hb && si == 1-bodySucc) {
 					continue
 				}
 				if !onlyErrorReturnsFrom(s) {
